@@ -22,7 +22,7 @@ from ..tables import parse_frame_stdout
 ID = "C18"
 SHARDS = {"quick": 8, "thorough": 16}
 RULE = ("static data sets as C05 (5-9 volumes, BM3 energies, PD static tensors of nine systems), modes none/volume/pressure, grid "
-        "sizes 11-401, pressure grids inside the fitted range (10 % margins), with/without static table, -s system, --cellmass; "
+        "sizes 11-401, pressure grids inside the fitted range (10 % margins), with/without static table (at its own volumes, at the phonon volumes, or at the phonon volumes printed with two decimals), -s system, --cellmass; "
         "non-trivial = pressure or volume mode with a static table and a non-cubic system; distinct by the drawn case")
 ASSUMPTIONS = [
     "printed precision of pandas to_string (6 decimals): 5.5e-6*max(1,|x|)",
@@ -34,6 +34,8 @@ GCM3 = 1e-3 / refphys.NA / (refphys.A0_M * 100) ** 3 * 1e3      # (g/mol)/bohr^3
 @st.composite
 def cases(draw):
     s = draw(dataset_specs(max_nq=1, max_na=1, max_nt=1, interpolators=["lsq_poly"]))
+    # volumes of the static table: its own set, or the phonon volumes (identical, or printed with two decimals)
+    s["static_vols"] = draw(st.sampled_from(["own", "own", "phonon", "phonon-2dec"]))
     s["mode"] = draw(st.sampled_from(["none", "volume", "pressure"]))
     s["n"] = draw(st.sampled_from([11, 21, 51, 101, 201, 401]))
     s["with_table"] = draw(st.sampled_from([True, True, True, False]))
@@ -113,11 +115,14 @@ def oracle(ctx, s):
         if len(Vrow) != len(vols) or any(not close(a, b * refphys.BOHR3_TO_ANG3) for a, b in zip(col["V"], vols)):
             raise PropertyViolation("C18/mode=none/volumes", "V column is not the input volumes in A^3", s)
         wantF = E
+        Vexact = np.array(vols, dtype=float)
     elif mode == "volume":
         if len(Vrow) != n or any(not close(a, b * refphys.BOHR3_TO_ANG3) for a, b in zip(col["V"], grid)):
             raise PropertyViolation("C18/mode=volume/volumes", "V column is not the %d-point volume grid in A^3" % n, s)
         wantF = fit(grid)
+        Vexact = np.array(grid, dtype=float)
     else:
+        Vexact = None
         step = s["sample"] or 1
         want_p = (p_min + delta_p * np.arange(n))[::step]
         if len(col["P"]) != len(want_p) or any(not close(a, b) for a, b in zip(col["P"], want_p)):
@@ -179,8 +184,11 @@ def oracle(ctx, s):
     else:
         cols_ref = {k: tab[:, j] for j, k in enumerate(keys)}
     fs = eulerian(sv[0], sv)
-    fr = eulerian(sv[0], Vrow)
+    # rows at known volumes (modes none / volume): the exact volume, not the printed one
+    fr = eulerian(sv[0], Vrow if Vexact is None else Vexact)
     dfr = np.abs(-(1.0 / 3.0) * (sv[0] / Vrow) ** (2.0 / 3.0) / Vrow) * 5.5e-6 * Vrow       # d f / d V * printed error of V
+    if Vexact is not None:
+        dfr = dfr * 0.0
     mod = {}
     for k, c_ in cols_ref.items():
         cf = lsq_poly(fs, c_, 2)
@@ -241,7 +249,8 @@ def sub_static(ctx):
         nt = s["mode"] != "none" and s["with_table"] and info["noncubic"]
         ctx.case(s, nt, classes=["mode-" + s["mode"], "table" if s["with_table"] else "no-table", "n=%d" % s["n"],
                                   "system-" + (s["system"] if s["apply_system"] else "none"), "static-rows-" + s.get("static_rows", "as-is"),
-                                  "big-energy" if s.get("big_energy") else "ordinary-energy"])
+                                  "big-energy" if s.get("big_energy") else "ordinary-energy",
+                                  "static-volumes-" + s.get("static_vols", "own")])
 
     ctx.run_given(body, cases(), max_examples=ctx.n(400, 8000))
 
